@@ -582,3 +582,80 @@ def install():
     import functools
 
     models.EXTRA_MODELS[functools.reduce] = _reduce_model
+
+
+# ============================================================================================ process pools (Part 3)
+def _fn_image(eng, fn, xs):
+    """[fn(x) for x in xs] for a symbolic list xs and a PURE fn (evaluated once, symbolically in the position)"""
+    i = z3.Int(fresh_name("mi"))
+    eng.pure_mode = getattr(eng, "pure_mode", 0) + 1
+    try:
+        y = eng.call(fn, [Sym(z3.Select(xs.cols[0], i), xs.kinds[0])], {})
+    finally:
+        eng.pure_mode -= 1
+    k = kind_of(y)
+    if k is None:
+        raise Unsupported("pool model: the mapped function must return a scalar / reference")
+    out = PList()
+    out.items, out.kinds, out.tup, out.name = None, [k], False, "results"
+    out.cols = [z3.Lambda([i], to_z3(y, k))]
+    out.n = xs.n
+    return out
+
+
+def _drain(eng, seq, what):
+    """consume the whole lazy iterable in the calling process (consumer rule, invariant from the contract's `pool_rule`)"""
+    c = eng.cur_contract
+    rule = c.options.get("pool_rule") if c is not None else None
+    if rule is None:
+        raise Unsupported("pool model: the contract gives no pool_rule (invariant of the submission loop)")
+    if isinstance(seq, Iter):
+        seq = seq.seq
+    if not isinstance(seq, LazySeq):
+        raise Unsupported("pool model: the iterable is not a lazy sequence")
+    xs = PList.fresh(rule["kind"], n=z3.IntVal(0), name="submitted")
+    vars = eng.visible_vars()
+    vars["__out__"] = xs
+    consume(eng, seq, f"{(eng.cur_key or '?').split(':')[-1]}/{what}", vars, rule["invariant"],
+            lambda e, k, item: models.LIST_METHODS["append"](e, xs, [item], {}), state=[xs])
+    eng.ghost["pool-submitted"] = xs
+    return xs
+
+
+def _pool_map(eng, recv, args, kwargs):
+    used(eng, "concurrent.futures.Executor.map(fn, xs) = iterator over [fn(x) for x in xs]: xs is consumed completely, in order, in the "
+              "calling process when map is called; fn runs in worker processes on pickled copies, so result k is a pure function of item k "
+              "and the caller's state is not affected by fn; results come back in submission order")
+    if len(args) != 2 or (set(kwargs) - {"timeout", "chunksize"}):
+        raise Unsupported("Executor.map form")
+    xs = _drain(eng, args[1], "submit")
+    return Iter(_fn_image(eng, args[0], xs))
+
+
+def _pool_ctor(eng, args, kwargs):
+    used(eng, "ProcessPoolExecutor(max_workers): a context manager whose __enter__ returns the executor and whose __exit__ waits and does not suppress exceptions")
+    return Opaque(z3.Int(fresh_name("pool")), POOL_PROTO)
+
+
+POOL_PROTO = {
+    "__enter__": lambda eng, recv, a, k: recv,
+    "__exit__": lambda eng, recv, a, k: None,
+    "map": _pool_map,
+}
+
+
+def _process_map(eng, args, kwargs):
+    used(eng, "tqdm.contrib.concurrent.process_map(fn, xs, max_workers=..) = list(executor.map(fn, xs)) with a progress bar (same assumptions as Executor.map)")
+    if len(args) != 2 or (set(kwargs) - {"max_workers", "chunksize"}):
+        raise Unsupported("process_map form")
+    xs = _drain(eng, args[1], "submit")
+    return _fn_image(eng, args[0], xs)
+
+
+def install_pools():
+    from concurrent.futures import ProcessPoolExecutor
+
+    from tqdm.contrib.concurrent import process_map
+
+    models.EXTRA_MODELS[ProcessPoolExecutor] = _pool_ctor
+    models.EXTRA_MODELS[process_map] = _process_map
